@@ -8,6 +8,7 @@ pub mod c04;
 pub mod c05;
 pub mod c06;
 pub mod c07;
+pub mod c08;
 
 pub fn dispatch(args: &Args, rep: &mut Report) {
     match args.prop.as_str() {
@@ -18,6 +19,7 @@ pub fn dispatch(args: &Args, rep: &mut Report) {
         "C05" => c05::run(args, rep),
         "C06" => c06::run(args, rep),
         "C07" => c07::run(args, rep),
+        "C08" => c08::run(args, rep),
         p => {
             eprintln!("unknown property {p}");
             std::process::exit(2);
